@@ -355,6 +355,44 @@ func concurrent(s *simrt.Sim, kind int, tier string) {
 // ---------------------------------------------------------------- ring vs container/ring
 
 func ringSeq(s *simrt.Sim) {
+	defer func() {
+		if x := recover(); x != nil {
+			s.Fail("ring-panic", fmt.Sprintf("ring operation panicked where container/ring does not: %v", x))
+		}
+	}()
+	if s.Choose(4, "zerovalue") == 0 {
+		// container/ring documents that the zero value is a one-element ring: every method must work on it first
+		r, m := &ring.Ring[int]{}, &stdring.Ring{}
+		var a, b []string
+		visit := func() {
+			r.Do(func(v int) { a = append(a, fmt.Sprint(v)) })
+			m.Do(func(v any) { b = append(b, fmt.Sprint(v)) })
+		}
+		switch s.Choose(6, "zerofirst") {
+		case 0:
+			visit()
+		case 1:
+			r, m = r.Next(), m.Next()
+		case 2:
+			r, m = r.Prev(), m.Prev()
+		case 3:
+			k := s.Choose(5, "zmove") - 2
+			r, m = r.Move(k), m.Move(k)
+		case 4:
+			r.Link(ring.New[int](2))
+			m.Link(stdring.New(2))
+		case 5:
+			r.Unlink(s.Choose(3, "zunlink"))
+			m.Unlink(s.Choose(3, "zunlink2"))
+		}
+		a, b = nil, nil
+		visit()
+		if len(a) != len(b) || r.Len() != m.Len() {
+			s.Fail("ring-differs", fmt.Sprintf("zero-value ring: Do visited %d elements, container/ring %d; Len %d vs %d", len(a), len(b), r.Len(), m.Len()))
+		}
+		s.Probe("ring.zero-value")
+		return
+	}
 	n := s.Choose(6, "size")
 	r := ring.New[int](n)
 	m := stdring.New(n)
